@@ -7,6 +7,7 @@ import (
 	"encoding/json"
 	"errors"
 	"fmt"
+	"hash/fnv"
 	"io"
 	"math/rand"
 	"net"
@@ -488,7 +489,19 @@ func runServerTCP(sc *tnScenario) (res tnResult) {
 	var got []byte
 	if r.err == nil {
 		var rerr error
-		got, rerr = readAvailable(tc, len(expected), sc.End == "close", tnReadSizes(sc), 3*time.Second)
+		if sc.End == "close" && len(expected)%2 == 0 {
+			// a relay drains the connection with io.Copy: whatever shortcut the connection offers to io.Copy
+			// (io.WriterTo) has to hand over the bytes that arrived together with the login lines as well
+			tc.SetReadDeadline(time.Now().Add(3 * time.Second))
+			var buf bytes.Buffer
+			_, rerr = io.Copy(&buf, tc)
+			got = buf.Bytes()
+			if ne, ok := rerr.(net.Error); ok && ne.Timeout() && len(got) == len(expected) {
+				rerr = nil
+			}
+		} else {
+			got, rerr = readAvailable(tc, len(expected), sc.End == "close", tnReadSizes(sc), 3*time.Second)
+		}
 		if rerr != nil {
 			res.Notes = append(res.Notes, "post-login read: "+tnErrClass(rerr))
 		}
@@ -1356,6 +1369,15 @@ func init() {
 				}
 				r = &r2
 			}
+			if confirm && s.DeadlineMs > 0 && !r.IsConn && !r.Hung && s.End != "silent" && s.EndAtMs+tnMargin < s.DeadlineMs && strings.HasPrefix(r.Impl, "fail timeout") {
+				// the server ended the connection well before the deadline, the dial reports the deadline: which of the
+				// two events the dial sees first depends on real time (a loaded machine delays the close): confirm alone
+				r2 := runClientTCP(s)
+				if !strings.HasPrefix(r2.Impl, "fail timeout") {
+					obs["timing outlier under load, not confirmed on re-run"]++
+				}
+				r = &r2
+			}
 			if s.NoRead {
 				// the replies can never be delivered: the only prescribed outcome is an error by the deadline
 				if r.IsConn {
@@ -1564,6 +1586,74 @@ func init() {
 			nt := len(payloadS) > 0 || len(s.payload()) > 0
 			cases = append(cases, Case{Line: clientLine("telnet-client-nt", toClient), Impl: r.Impl, Desc: "pair, dialler side " + tnDesc(s), Class: "pair-tcp/client", Nontrivial: nt})
 			cases = append(cases, Case{Line: serverLine("telnet-server-nt", toServer), Impl: r.Impl2, Desc: "pair, listener side " + tnDesc(s), Class: "pair-tcp/server", Nontrivial: nt})
+		}
+
+		// ---------- (4b) write, then Close at once: nothing that was written may be dropped ----------
+		for k := 0; k < c.Budget(2, 8) && c.TimeLeft(); k++ {
+			func() {
+				ln, err := telnet.Listen("127.0.0.1:0")
+				if err != nil {
+					c.Note("4b: listen: %v", err)
+					return
+				}
+				defer ln.Close()
+				size := (1 + k%3) << 20
+				payload := make([]byte, size)
+				c.Rng.Read(payload)
+				type res struct {
+					n   int
+					sum uint32
+					err error
+				}
+				done := make(chan res, 1)
+				go func() {
+					conn, err := ln.Accept()
+					if err != nil {
+						done <- res{err: err}
+						return
+					}
+					defer conn.Close()
+					conn.SetReadDeadline(time.Now().Add(20 * time.Second))
+					var r res
+					buf := make([]byte, 32<<10)
+					h := fnv.New32a()
+					for {
+						n, err := conn.Read(buf)
+						r.n += n
+						h.Write(buf[:n])
+						if err != nil {
+							if err != io.EOF {
+								r.err = err
+							}
+							break
+						}
+						time.Sleep(300 * time.Microsecond) // a reader that is a little slower than the writer
+					}
+					r.sum = h.Sum32()
+					done <- r
+				}()
+				conn, err := telnet.DialTimeout(ln.Addr().String(), "LA5NTA", "pw", 5*time.Second)
+				if err != nil {
+					c.Note("4b: dial: %v", err)
+					return
+				}
+				conn.SetWriteDeadline(time.Now().Add(20 * time.Second))
+				_, werr := conn.Write(payload)
+				cerr := conn.Close() // at once: the bytes are still queued
+				rep := map[string]interface{}{"written_bytes": size, "write_err": fmt.Sprint(werr), "close_err": fmt.Sprint(cerr)}
+				select {
+				case r := <-done:
+					h := fnv.New32a()
+					h.Write(payload)
+					rep["received_bytes"], rep["read_err"] = r.n, fmt.Sprint(r.err)
+					if werr == nil && (r.n != size || r.sum != h.Sum32() || r.err != nil) {
+						c.Violate("C15:bytes-lost-at-close", fmt.Sprintf("the dialler wrote %d bytes and closed: the accepted connection received %d (read error %v) - what was written before Close has to arrive complete", size, r.n, r.err), rep)
+					}
+				case <-time.After(25 * time.Second):
+					c.Violate("C15:bytes-lost-at-close", "the accepted connection did not see the end of the stream within 25 s after the dialler closed", rep)
+				}
+				obs["pair-tcp/write-then-close(oracle only)"]++
+			}()
 		}
 
 		// ---------- no goroutine of the package left behind ----------
